@@ -4,17 +4,24 @@ import Vflow.Gen.ShutdownIR
 # C15 — SIGTERM stops the collector cleanly
 
 Protocol-level model (`Vflow.Model.Shutdown`): one read loop and one `shutdown()` goroutine per
-protocol, statements regenerated from the Go source (`Vflow.Gen.ShutdownIR`).  "Every schedule" =
-every interleaving of the atomic steps; the reachable state space of each generated program is
-finite and is enumerated completely by the kernel (`decide`), so the statements below hold for all
-interleavings of the modelled steps, not for a sample.
+protocol, statements regenerated from the Go source (`Vflow.Gen.ShutdownIR`): the statements of
+`shutdown()`, the body of the read loop, the statements of `run()` after the loop, and every send on /
+close of a UDP work queue anywhere in package vflow.  "Every schedule" = every interleaving of the
+atomic steps; the reachable state space of each generated program is finite and is enumerated
+completely by the kernel (`decide +kernel`: the kernel evaluates the `Decidable` instance, no axiom is added), so the statements below hold for all interleavings of the
+modelled steps, not for a sample.
 
-What the model cannot exhibit (labelled partial in the manifest): wall-clock seconds (the 1 s sleep and
-the 1 s read deadline enter only as the enabledness facts stated in the model file), signal delivery,
-the non-atomic `stop` flag, and the hand-off hypothesis `H` (the reader enqueues a datagram it has
-already received before the shutdown goroutine reaches `close(queue)`), without which a send on the
-closed channel IS reachable (`close_race_without_H`).  Survival of the templates across the restart is
-the composition with C10 (dump under the shard read locks = one consistent snapshot) and C11
+Since the F21 repair the read loop — the only sender — closes its queue itself after it has left the
+loop and `shutdown()` does not touch it, so `no_send_on_closed_queue` holds with **no** hypothesis:
+neither the hand-off hypothesis `H` of the design nor the fact about the two 1 s constants
+(`Assume.none` = every interleaving; `deadlines_only_restrict` and `handoff_irrelevant` carry the safety statements over to
+every combination of the assumptions).  The program before the repair is kept as `unrepairedProgs`: there the send on the closed
+channel is reachable as soon as `H` is dropped (`close_race_without_H`; reproduced on the real binary
+by freezing the process for longer than the grace period, `e2e.stall_cycle`).
+
+What the model cannot exhibit (labelled partial in the manifest): wall-clock seconds, signal
+delivery, the non-atomic `stop` flag.  Survival of the templates across the restart is the
+composition with C10 (dump under the shard read locks = one consistent snapshot) and C11
 (`load_save`): `dump_after_stop_and_sleep` says the dump is taken after the read loop has been told
 to stop and the grace period has elapsed.
 -/
@@ -26,18 +33,33 @@ def essential (p : List SStep) : List SStep := p.filter fun s => s ≠ .guardEna
 
 /-! ## Obligations over the regenerated facts -/
 
-theorem gen_ipfix_shutdown : essential ipfixShutdown = [.setStop, .sleep1s, .dump, .closeQueue] := by decide
-theorem gen_v9_shutdown : essential netflowV9Shutdown = [.setStop, .sleep1s, .dump, .closeQueue] := by decide
-theorem gen_v5_shutdown : essential netflowV5Shutdown = [.setStop, .sleep1s, .closeQueue] := by decide
-theorem gen_sflow_shutdown : essential sflowShutdown = [.setStop, .sleep1s, .closeConn, .closeQueue] := by decide
+/-- `shutdown()` sets the stop flag, sleeps, dumps — and does **not** close the queue (F21 repair) -/
+theorem gen_ipfix_shutdown : essential ipfixShutdown = [.setStop, .sleep1s, .dump] := by decide
+theorem gen_v9_shutdown : essential netflowV9Shutdown = [.setStop, .sleep1s, .dump] := by decide
+theorem gen_v5_shutdown : essential netflowV5Shutdown = [.setStop, .sleep1s] := by decide
+theorem gen_sflow_shutdown : essential sflowShutdown = [.setStop, .sleep1s, .closeConn] := by decide
 
 def canonicalReadLoop : List RStep := [.whileNotStop, .getBuf, .deadline1s, .read, .onErrorContinue, .countUDP, .enqueue]
 
+/-- what follows the loop in `run()`: the reader closes the queue it sends on (the generator emits
+`.closeQueue` only for `close(ch)` with `ch` the channel of the loop's send statement) -/
+def canonicalAfterLoop : List RStep := [.closeQueue]
+
 /-- all four read loops have the shape the model's reader implements: check `stop`, arm a 1 s
-deadline, read, on error go back to the check, count, enqueue -/
+deadline, read, on error go back to the check, count, enqueue; after the loop: close the queue -/
 theorem gen_read_loops :
     ipfixReadLoop = canonicalReadLoop ∧ netflowV9ReadLoop = canonicalReadLoop ∧
-    netflowV5ReadLoop = canonicalReadLoop ∧ sflowReadLoop = canonicalReadLoop := by decide
+    netflowV5ReadLoop = canonicalReadLoop ∧ sflowReadLoop = canonicalReadLoop ∧
+    ipfixAfterLoop = canonicalAfterLoop ∧ netflowV9AfterLoop = canonicalAfterLoop ∧
+    netflowV5AfterLoop = canonicalAfterLoop ∧ sflowAfterLoop = canonicalAfterLoop := by decide
+
+/-- in the whole of package vflow each UDP work queue has exactly one send statement and exactly one
+`close`, both in the `run()` of its own protocol (so the model's two goroutines are all there is: no
+other function sends on, closes, or is handed a queue) -/
+theorem gen_single_sender_and_closer :
+    queueSenders = [("IPFIX.run", "ipfixUDPCh"), ("NetflowV5.run", "netflowV5UDPCh"),
+                    ("NetflowV9.run", "netflowV9UDPCh"), ("SFlow.run", "sFlowUDPCh")] ∧
+    queueClosers = queueSenders := by decide
 
 /-- `main`: signals registered before anything runs; the information model (a global map read by the IPFIX and NetFlow
 v9 decoders) is replaced by `LoadExtElements` BEFORE any run loop is started (F18 repair: it used to be replaced from
@@ -49,50 +71,155 @@ theorem gen_main :
 
 /-! ## All interleavings of the generated programs -/
 
-def progs : List (List SStep) := [ipfixShutdown, netflowV9Shutdown, netflowV5Shutdown, sflowShutdown]
+def progs : List Prog :=
+  [⟨ipfixShutdown, ipfixAfterLoop⟩, ⟨netflowV9Shutdown, netflowV9AfterLoop⟩,
+   ⟨netflowV5Shutdown, netflowV5AfterLoop⟩, ⟨sflowShutdown, sflowAfterLoop⟩]
 
-/-- the enumerated state sets are closed under every step, i.e. they are *all* reachable states -/
-theorem reachable_closed : ∀ p ∈ progs, closedUnderNext p true = true ∧ closedUnderNext p false = true := by
-  decide
+/-- the programs as they were before the F21 repair (repository commit 4d10a36; IPFIX and NetFlow v9 had the
+same one, then NetFlow v5, then sFlow): `shutdown()` closes the queue as its last statement, nothing follows
+the read loop -/
+def unrepairedProgs : List Prog :=
+  [⟨[.guardEnabled, .setStop, .log, .sleep1s, .dump, .log, .closeQueue], []⟩,
+   ⟨[.guardEnabled, .setStop, .log, .sleep1s, .log, .closeQueue], []⟩,
+   ⟨[.guardEnabled, .setStop, .log, .sleep1s, .closeConn, .log, .closeQueue], []⟩]
 
-/-- remaining work once `stop` is set: reader distance to exit + shutdown statements left -/
-def measure (p : List SStep) (s : St) : Nat :=
-  (match s.rpc with | .exited => 0 | .atCheck => 1 | .havePacket => 2 | .inRead => 3) + (p.length - s.spc)
+/-- the assumptions under which the repaired programs are enumerated: none, or the fact about the two 1 s
+constants; the hand-off hypothesis changes nothing for them (`handoff_irrelevant`) -/
+def timing : List Assume := [.none, ⟨false, true⟩]
 
-/-- **C15 (no panic, under H)**: with the hand-off hypothesis no interleaving sends on the closed queue -/
-theorem no_send_on_closed_queue_partial : ∀ p ∈ progs, ∀ s ∈ reachable p true, s.panicked = false := by decide
+/-- the enumerated state sets are closed under every step, i.e. they are *all* reachable states (the unrepaired
+programs under the one combination for which a universal statement is made below; the `∃` statements about them
+need no closure: the enumeration only ever adds successors of states it already holds) -/
+theorem reachable_closed :
+    (∀ p ∈ progs, ∀ a ∈ timing, closedUnderNext p a = true) ∧
+    (∀ p ∈ unrepairedProgs, closedUnderNext p ⟨true, true⟩ = true) := by
+  decide +kernel
 
-/-- the hypothesis is needed: without it the panic is reachable in every one of the four programs
-(idle link, a datagram arriving in the last instant of the deadline, the reader descheduled between
-`ReadFromUDP` and the channel send until after `close`) -/
-theorem close_race_without_H : ∀ p ∈ progs, ∃ s ∈ reachable p false, s.panicked = true := by decide
+/-- the hand-off hypothesis makes no difference to the repaired programs (their `shutdown()` has no `close`):
+same reachable states, same steps -/
+theorem handoff_irrelevant :
+    ∀ p ∈ progs, ∀ d ∈ [false, true], reachable p ⟨true, d⟩ = reachable p ⟨false, d⟩ ∧
+      ∀ s ∈ reachable p ⟨false, d⟩, next p ⟨true, d⟩ s = next p ⟨false, d⟩ s := by decide +kernel
+
+/-- the fact about the 1 s constants only removes interleavings: whatever is reachable with it is reachable
+without. So what holds in every state of `reachable p .none` holds under every combination of assumptions. -/
+theorem deadlines_only_restrict :
+    ∀ p ∈ progs, ∀ s ∈ reachable p ⟨false, true⟩, (reachable p .none).contains s = true := by
+  decide +kernel
+
+/-- remaining work once `stop` is set: reader distance to the return of `run()` + shutdown statements left -/
+def measure (p : Prog) (s : St) : Nat :=
+  (match s.rpc with
+    | .exited => 0 | .leaving k => 1 + (p.afterLoop.length - k)
+    | .atCheck => 2 + p.afterLoop.length | .havePacket => 3 + p.afterLoop.length | .inRead => 4 + p.afterLoop.length)
+  + (p.shutdown.length - s.spc)
+
+/-- one enumeration for the three safety statements below (each reachable state of each program, no assumption) -/
+theorem safety_all_interleavings :
+    ∀ p ∈ progs, ∀ s ∈ reachable p .none,
+      s.panicked = false ∧
+      (s.closed = true → s.stop = true ∧ s.pastLoop = true ∧ s.rpc ≠ .leaving 0) ∧
+      s.readsAfterStop ≤ 1 := by decide +kernel
+
+/-- **C15 (no panic)**: no interleaving sends on the closed queue or closes it twice — with no assumption on
+timing or scheduling (`Assume.none`: every interleaving of the atomic steps): not the hand-off hypothesis `H`,
+not the 1 s constants. (Before the F21 repair: `no_send_on_closed_queue_partial`, under hypothesis `H` in the
+timed model only.) -/
+theorem no_send_on_closed_queue : ∀ p ∈ progs, ∀ s ∈ reachable p .none, s.panicked = false :=
+  fun p hp s hs => (safety_all_interleavings p hp s hs).1
+
+/-- the same under any combination of the assumptions (they only remove interleavings) -/
+theorem no_send_on_closed_queue_assuming : ∀ p ∈ progs, ∀ a ∈ Assume.all, ∀ s ∈ reachable p a, s.panicked = false := by
+  intro p hp a ha s hs
+  have key : ∀ d ∈ [false, true], ∀ s ∈ reachable p ⟨false, d⟩, s.panicked = false := by
+    intro d hd s hs
+    simp only [List.mem_cons, List.not_mem_nil, or_false] at hd
+    rcases hd with rfl | rfl
+    · exact no_send_on_closed_queue p hp s hs
+    · exact no_send_on_closed_queue p hp s (List.contains_iff_mem.mp (deadlines_only_restrict p hp s hs))
+  simp only [Assume.all, List.mem_cons, List.not_mem_nil, or_false] at ha
+  rcases ha with rfl | rfl | rfl | rfl
+  · exact key false (by simp) s hs
+  · exact key true (by simp) s hs
+  · rw [(handoff_irrelevant p hp false (by simp)).1] at hs; exact key false (by simp) s hs
+  · rw [(handoff_irrelevant p hp true (by simp)).1] at hs; exact key true (by simp) s hs
+
+/-- the reason: the queue is closed only by the reader, after it has left its loop for good -/
+theorem closed_only_after_loop :
+    ∀ p ∈ progs, ∀ s ∈ reachable p .none, s.closed = true →
+      s.stop = true ∧ s.pastLoop = true ∧ s.rpc ≠ .leaving 0 :=
+  fun p hp s hs => (safety_all_interleavings p hp s hs).2.1
+
+/-- regression witness (the code before the repair): without `H` the panic is reachable in every one of
+the old programs, already in the timed model (a datagram arriving in the last instant of the deadline,
+the reader descheduled between `ReadFromUDP` and the channel send until after `close`) … -/
+theorem close_race_without_H : ∀ p ∈ unrepairedProgs, ∃ s ∈ reachable p ⟨false, true⟩, s.panicked = true := by decide +kernel
+
+/-- … and `H`, together with the fact about the two 1 s constants, was exactly what excluded it (the old
+`no_send_on_closed_queue_partial`) -/
+theorem unrepaired_no_send_under_H : ∀ p ∈ unrepairedProgs, ∀ s ∈ reachable p ⟨true, true⟩, s.panicked = false := by decide +kernel
+
+/-- … while a process that does not run during the grace period (the 1 s sleep over before the read armed
+before `stop` has returned: `deadlines := false`) reached the panic even under `H`: the read returns a datagram
+after `shutdown()` has closed the queue (IPFIX / NetFlow v9 and NetFlow v5; the sFlow `shutdown()` closed the
+socket first, so there the late read fails instead). This is the schedule the stalled stops of the e2e check
+produce on the real binary. -/
+theorem close_race_when_frozen : ∀ p ∈ unrepairedProgs.take 2, ∃ s ∈ reachable p ⟨true, false⟩, s.panicked = true := by decide +kernel
+
+/-- a half-applied repair (the reader closes AND `shutdown()` still closes) panics on the second `close`,
+even under both assumptions: the model is sensitive to who closes -/
+theorem double_close_panics :
+    ∃ s ∈ reachable ⟨[.guardEnabled, .setStop, .log, .sleep1s, .log, .closeQueue], [.closeQueue]⟩ ⟨true, true⟩,
+      s.panicked = true := by decide +kernel
 
 /-- **C15 (the read loop stops)**: after `stop` is set at most one more read completes, in every interleaving -/
-theorem at_most_one_read_after_stop : ∀ p ∈ progs, ∀ s ∈ reachable p true, s.readsAfterStop ≤ 1 := by decide
+theorem at_most_one_read_after_stop : ∀ p ∈ progs, ∀ s ∈ reachable p .none, s.readsAfterStop ≤ 1 :=
+  fun p hp s hs => (safety_all_interleavings p hp s hs).2.2
+
+set_option synthInstance.maxSize 1024 in
+/-- one enumeration for the three statements below (each reachable state of each program, without and with the
+fact about the 1 s constants) -/
+theorem progress_all_interleavings :
+    ∀ p ∈ progs, ∀ a ∈ timing, ∀ s ∈ reachable p a,
+      (s.stop = true →
+        (∀ t ∈ next p a s, measure p t < measure p s) ∧
+        (next p a s = [] → s.rpc = .exited ∧ s.spc = p.shutdown.length ∧ s.closed = true ∧ s.panicked = false)) ∧
+      (s.stop = false → s.spc ≤ 1 ∧ (shutdownSteps p a s ≠ [])) ∧
+      (s.dumped = true → s.dumpedAfterStop = true ∧ s.stop = true) ∧
+      (a.deadlines = true → s.dumped = true → s.rpc ≠ .inRead) := by decide +kernel
 
 /-- **C15 (termination)**: once `stop` is set every step of every interleaving strictly decreases
-`measure`, so the read loop exits and `shutdown()` returns after at most `3 + length` further steps;
-and no state before the end is stuck (some step is always enabled) -/
+`measure`, so the read loop exits, closes the queue, `run()` and `shutdown()` return after at most
+`4 + lengths` further steps; and no state before the end is stuck (some step is always enabled); at the
+end the queue is closed (the workers, which drain it until it is closed, terminate) and nothing panicked -/
 theorem terminates_after_stop :
-    ∀ p ∈ progs, ∀ s ∈ reachable p true, s.stop = true →
-      (∀ t ∈ next p true s, measure p t < measure p s) ∧
-      (next p true s = [] → s.rpc = .exited ∧ s.spc = p.length) := by decide
+    ∀ p ∈ progs, ∀ a ∈ timing, ∀ s ∈ reachable p a, s.stop = true →
+      (∀ t ∈ next p a s, measure p t < measure p s) ∧
+      (next p a s = [] → s.rpc = .exited ∧ s.spc = p.shutdown.length ∧ s.closed = true ∧ s.panicked = false) :=
+  fun p hp a ha s hs => (progress_all_interleavings p hp a ha s hs).1
 
 /-- before the signal the shutdown goroutine does not exist; once it runs, `setStop` is its first
 effective step and it is always enabled -/
-theorem stop_always_reachable : ∀ p ∈ progs, ∀ s ∈ reachable p true, s.stop = false → s.spc ≤ 1 ∧ (shutdownSteps p true s ≠ []) := by
-  decide
+theorem stop_always_reachable :
+    ∀ p ∈ progs, ∀ a ∈ timing, ∀ s ∈ reachable p a, s.stop = false → s.spc ≤ 1 ∧ (shutdownSteps p a s ≠ []) :=
+  fun p hp a ha s hs => (progress_all_interleavings p hp a ha s hs).2.1
 
-/-- **C15 (dump)**: whenever the cache has been dumped, `stop` had been set and the grace period was
-over (the dump statement comes after `sleep1s`), and the queue is closed only after the dump -/
+/-- **C15 (dump)**: whenever the cache has been dumped, `stop` had been set (the dump statement comes after
+`setStop` and `sleep1s`); and, given the fact about the two 1 s constants, the grace period has done its work:
+when the dump is taken the read loop is not blocked in `ReadFromUDP` any more (it is handing over its last
+datagram, leaving, or gone) and will not read again. The queue is no longer closed by `shutdown()`, so the
+former clause "closed only after the dump" is replaced by `closed_only_after_loop`: the workers drain the
+queue whichever of dump and close comes first. -/
 theorem dump_after_stop_and_sleep :
-    ∀ p ∈ progs, ∀ s ∈ reachable p true,
+    ∀ p ∈ progs, ∀ a ∈ timing, ∀ s ∈ reachable p a,
       (s.dumped = true → s.dumpedAfterStop = true ∧ s.stop = true) ∧
-      (s.closed = true → p.contains .dump = true → s.dumped = true) := by decide
+      (a.deadlines = true → s.dumped = true → s.rpc ≠ .inRead) :=
+  fun p hp a ha s hs => (progress_all_interleavings p hp a ha s hs).2.2
 
-/-- non-vacuity: the state spaces are not trivial, and the final state (reader exited, shutdown done, no panic) is reachable -/
-example : (reachable ipfixShutdown true).length > 20 ∧
-    (reachable ipfixShutdown true).any (fun s => s.rpc == .exited && s.spc == ipfixShutdown.length && s.dumped && s.closed && !s.panicked) = true := by
-  decide
+/-- non-vacuity: the state spaces are not trivial, and the final state (reader exited, queue closed by it,
+shutdown done, no panic) is reachable -/
+example : (reachable ⟨ipfixShutdown, ipfixAfterLoop⟩ .none).length > 20 ∧
+    (reachable ⟨ipfixShutdown, ipfixAfterLoop⟩ .none).any (fun s => s.rpc == .exited && s.spc == ipfixShutdown.length && s.dumped && s.closed && !s.panicked) = true := by
+  decide +kernel
 
 end Vflow.C15
